@@ -202,6 +202,13 @@ def main():
         for dim in (2, 3):
             base = law_3d("ortho", draw(rng, "ortho"), dim=dim, ps=False).C
             n = base.shape[0]
+            if rep % 2 == 1:
+                # fully populated (triclinic) symmetric positive definite stiffness: every coupling entry is exercised
+                G_ = np.array([[q(rng, -1, 1) for _ in range(n)] for _ in range(n)])
+                base = base + 0.5 * (G_ + G_.T) + 0.0 * np.eye(n)
+                w_, _ = np.linalg.eigh(base)
+                if w_.min() < 0.5:
+                    base = base + (0.5 - w_.min()) * np.eye(n)
             nn = 2 if dim == 2 else 3
             voigt = base.copy()
             voigt[nn:, nn:] /= 2
@@ -218,6 +225,34 @@ def main():
                 res.fail(f"anisotropic voigt-vs-mandel dim={dim}", f"same material entered in Voigt and Kelvin-Mandel notation gives laws differing by {np.abs(Am.C - Av.C).max():.3e}", dict(dim=dim))
             if np.abs(Am.C @ Am.S - np.eye(n)).max() > 1e-8:
                 res.fail(f"anisotropic C.S=I dim={dim}", "C S != I", dict(dim=dim))
+        # heterogeneous parameter fields, per element (Ne,) and per Gauss point (Ne, nPg), with rotated material axes:
+        # every entry of the field law is the scalar law of that entry's parameters
+        for kind in ("iso", "ti", "ortho"):
+            for dim, ps in ((2, True), (2, False), (3, False)):
+                shape = rng.choice([(3,), (2, 2)])
+                npts = int(np.prod(shape))
+                plist = [draw(rng, kind) for _ in range(npts)]
+                Qh = rand_rotation(rng, dim)
+                Q3h = np.eye(3)
+                Q3h[:dim, :dim] = Qh
+                a1h, a2h = tuple(Q3h[:, 0]), tuple(Q3h[:, 1])
+                pfield = {k_: np.array([pp[k_] for pp in plist], dtype=float).reshape(shape) for k_ in plist[0]}
+                res.case((rep, "field", kind, dim, ps, shape))
+                identh = dict(law=kind, dim=dim, planeStress=ps, field_shape=list(shape), axis_1=list(a1h), axis_2=list(a2h))
+                try:
+                    Cf = np.asarray(law_3d(kind, pfield, a1h, a2h, dim=dim, ps=ps).C)
+                    Sf = np.asarray(law_3d(kind, pfield, a1h, a2h, dim=dim, ps=ps).S)
+                except Exception as ex:  # noqa: BLE001
+                    res.fail(f"heterogeneous law raises law={kind}", f"{type(ex).__name__}: {str(ex)[:150]}", identh)
+                    continue
+                nn_ = Cf.shape[-1]
+                Cf, Sf = Cf.reshape(npts, nn_, nn_), Sf.reshape(npts, nn_, nn_)
+                for e in range(npts):
+                    ref = law_3d(kind, plist[e], a1h, a2h, dim=dim, ps=ps)
+                    if np.abs(Cf[e] - ref.C).max() > 1e-9 * np.abs(ref.C).max() or np.abs(Sf[e] - ref.S).max() > 1e-9 * np.abs(ref.S).max():
+                        res.fail(f"heterogeneous law differs from the scalar law law={kind} planeStress={ps} field={'per Gauss point' if len(shape) == 2 else 'per element'}",
+                                 f"entry {e} of C / S built from parameter arrays of shape {shape} differs from the law of the same parameters given as scalars by {np.abs(Cf[e] - ref.C).max():.3e}", identh)
+                        break
         # parameter change -> law changes on next read (scalar, array, in-place + re-assignment)
         for dim, ps in ((2, True), (3, False)):
             mat = E_.Isotropic(dim, E=4.0, v=0.25, planeStress=ps)
